@@ -422,7 +422,10 @@ fn parse_matched_braces_or_ending_semi(input: ParseStream) -> syn::Result<TokenS
         while let Some((tt, next)) = rest.token_tree() {
             match &tt {
                 TokenTree::Group(group) => {
-                    let is_brace = group.delimiter() == Delimiter::Brace;
+                    // A `$body:block` fragment of `macro_rules!` arrives as a None-delimited
+                    // group around the block: it ends the item just like the block itself.
+                    let is_brace = group.delimiter() == Delimiter::Brace
+                        || (group.delimiter() == Delimiter::None && is_single_block(group));
                     tokens.extend(std::iter::once(tt));
                     if is_brace {
                         return Ok((tokens, next));
@@ -460,5 +463,15 @@ fn disallow_token<T: Spanned>(token: Option<T>) -> syn::Result<()> {
         Err(syn::Error::new(token.span(), "Not allowed here"))
     } else {
         Ok(())
+    }
+}
+
+fn is_single_block(group: &proc_macro2::Group) -> bool {
+    let mut trees = group.stream().into_iter();
+    match (trees.next(), trees.next()) {
+        (Some(proc_macro2::TokenTree::Group(inner)), None) => {
+            inner.delimiter() == proc_macro2::Delimiter::Brace
+        }
+        _ => false,
     }
 }
